@@ -42,7 +42,7 @@ def make(rng, S):
 
 def generate(rng, tier):
     cases = []
-    for _ in range(120 if tier == "quick" else 3000):
+    for _ in range(gen.N(tier, 120, 3000)):
         S = "Q" if rng.random() < 0.8 else "F"
         shape, xs, flat, P, base, L = make(rng, S)
         ks = [0] + (KS if S == "Q" else [1, -1, 2, -7, 1000])
